@@ -406,7 +406,7 @@ def model_result(t):
 def parse_correspondence(ctx, n, dis, hist, samples):
     rng = ctx.rng
     T = _tables(ctx)
-    base = tempfile.mkdtemp(prefix='c18p_', dir='/tmp')
+    base = tempfile.mkdtemp(prefix='c18p_')
     cwd = os.getcwd()
     cases, texts = [], []
     try:
@@ -682,7 +682,7 @@ def model_trace(t):
 def run_correspondence(ctx, n, dis, hist, samples):
     rng = ctx.rng
     T = _tables(ctx)
-    base = tempfile.mkdtemp(prefix='c18r_', dir='/tmp')
+    base = tempfile.mkdtemp(prefix='c18r_')
     os.makedirs(os.path.join(base, 'sub'))
     cwd = os.getcwd()
     cases = []
@@ -875,7 +875,7 @@ class E2E:
         import numpy as np
         import emg3d
         self.np, self.emg3d = np, emg3d
-        self.dir = tempfile.mkdtemp(prefix='c18e_', dir='/tmp')
+        self.dir = tempfile.mkdtemp(prefix='c18e_')
         hx = np.ones(4) * 250.
         grid = emg3d.TensorMesh([hx, hx, hx], origin=(-500, -500, -500))
         self.grid = grid
